@@ -362,6 +362,24 @@ impl RealState {
                     Err(e) => (format!("err {}", err_kind(&e)), None),
                 }
             }
+            ["ar.setlen", x, l] => {
+                // a branch length OVERWRITTEN in place the way the crate's own command-line tool does it (`collapse`): both records
+                // of the branch through the public setters — `set_parent` on the child, `set_child_edge` on the parent
+                let (Ok(x), Some(Some(l))) = (x.parse::<usize>(), opt_len(l)) else { return bad };
+                let p = match self.tree.get(&x) {
+                    Ok(n) => n.parent,
+                    Err(e) => return (format!("err {}", err_kind(&e)), None),
+                };
+                let Some(p) = p else { return ("err root".into(), None) };
+                self.tree.get_mut(&x).unwrap().set_parent(p, Some(l));
+                match self.tree.get_mut(&p) {
+                    Ok(n) => {
+                        n.set_child_edge(&x, Some(l));
+                        ("ok".into(), None)
+                    }
+                    Err(e) => (format!("err {}", err_kind(&e)), None),
+                }
+            }
             ["ar.setname", x, name] => {
                 // in-place edit of a node's name through the public mutable accessor (no cache is told about it)
                 let Ok(x) = x.parse::<usize>() else { return bad };
